@@ -228,7 +228,7 @@ func c08oracle(d c08desc) (claimed string, why string, own bool) {
 func c08exec(c *h.Ctx, cs *h.Case) {
 	outcome := []string{}
 	for _, op := range cs.Ops {
-		if tk := strings.Fields(op); len(tk) > 2 && tk[0] == "c08" && (tk[1] == "honestcert" || tk[1] == "pair" || tk[1] == "retry" || tk[1] == "vrf" || tk[1] == "hv" || tk[1] == "phase" || tk[1] == "pre" || tk[1] == "cn" || tk[1] == "tocn" || tk[1] == "resume") {
+		if tk := strings.Fields(op); len(tk) > 2 && tk[0] == "c08" && (tk[1] == "honestcert" || tk[1] == "pair" || tk[1] == "retry" || tk[1] == "vrf" || tk[1] == "hv" || tk[1] == "phase" || tk[1] == "pre" || tk[1] == "cn" || tk[1] == "tocn" || tk[1] == "resume" || tk[1] == "interleave") {
 			var obs, note string
 			switch tk[1] {
 			case "honestcert":
@@ -249,6 +249,8 @@ func c08exec(c *h.Ctx, cs *h.Case) {
 				obs, note = c08tocn(tk[2:], cs)
 			case "resume":
 				obs, note = c08resume(tk[2:], cs)
+			case "interleave":
+				obs, note = c08interleave(tk[2:], cs)
 			default:
 				obs, note = c08pair(tk[2:], cs)
 			}
@@ -761,6 +763,8 @@ func c08gen(c *h.Ctx, yield func(*h.Case)) {
 	c08nameGen(c, yield)
 	// a client with a session cache reconnects (round 7, /repo d941b9f)
 	c08resumeGen(c, yield)
+	// two handshakes with one listener that overlap (round 7)
+	c08interleaveGen(c, yield)
 	// what NewTLSConn wants before it sends anything (round 5)
 	for _, suite := range suitesL {
 		for _, addr := range []string{"tls", "tcp", "local"} {
